@@ -63,7 +63,8 @@ def run(ctx):
     pr = ctx.proofs("c05", "C05Theorems.v")
     # ---- correspondence
     n = ctx.n(3000, 60000)
-    rc, cases, e = sh2([exe, "corr", "-seed", str(ctx.seed), "-n", str(n)], timeout=3000)
+    exh_c, exh_s = ctx.n(2, 3), ctx.n(3, 4)
+    rc, cases, e = sh2([exe, "corr", "-seed", str(ctx.seed), "-n", str(n), "-exh", str(exh_c)], timeout=3000)
     if rc != 0:
         raise common.CheckError("harness corr failed: " + e[-1000:])
     all_lines = cases.splitlines()
@@ -89,7 +90,7 @@ def run(ctx):
     ctx.log("correspondence: %d cases, %d mismatches" % (len(lines), len(mism)))
     # ---- search: the property itself on the implementation
     ns = ctx.n(20000, 1500000)
-    rc, so, e = sh2([exe, "search", "-seed", str(ctx.seed), "-n", str(ns)], timeout=3000)
+    rc, so, e = sh2([exe, "search", "-seed", str(ctx.seed), "-n", str(ns), "-exh", str(exh_s)], timeout=3000)
     if rc != 0:
         raise common.CheckError("harness search failed: " + e[-1000:])
     fails = []
@@ -123,9 +124,12 @@ def run(ctx):
                        "fragments, unknown track ids, inconsistent sizes/decode times): op outcome classes, write-order numbers, tfdt, "
                        "mdat bookkeeping, tfhd/trun flags and defaults after optimisation, every data offset, moof/mdat-header/encoded sizes, "
                        "FullSample lists recovered by DecodeFile/DecodeFileSR + GetFullSamples for every trex and nil; "
+                       "plus every history of length <= %d over 2 tracks and 2-valued flags/duration/cto with and without optimisation; "
                        "distinct = distinct case lines; "
-                       "search: %d random segments (1-4 tracks, 1-3 fragments, 0-40 ops, extra boxes, both encoders, optimise on/off, "
-                       "both decoders, adversarial trex): added list == recovered list per track" % (n, ns))
+                       "search: every such history of length <= %d, then %d random segments (1-4 tracks, 1-3 fragments, 0-40 ops, extra boxes, both encoders, optimise on/off, "
+                       "both decoders, adversarial trex): added list == recovered list per track, and the data-offset oracle; "
+                       "probes with metadata-only samples of huge payloads (offset oracle only) and a re-encode probe"
+                       % (n, exh_c, exh_s, ns))
 
 
 def replay(ctx, path):
